@@ -521,6 +521,21 @@ Proof.
   apply (merged_wellformed c g); assumption.
 Qed.
 
+(* ---- sessions: every call of a history describes the BAM of that call only *)
+Lemma history_stateless h i c g sched : nth_error h i = Some (c, g, sched) ->
+  nth_error (run_history h) i = Some (obtain c g sched).
+Proof. intros H. unfold run_history. rewrite (map_nth_error _ _ _ H). reflexivity. Qed.
+
+Lemma history_matrix h i c g sched : nth_error h i = Some (c, g, sched) ->
+  valid_cfg c = true -> NoDup (map cid g) -> regular_genome c g ->
+  Permutation (seq 0 (length (all_jobs c g))) sched ->
+  exists d, nth_error (run_history h) i = Some (Ok d) /\ (forall q s, look d q s = decl c g q s)
+            /\ total d = decl_total c g /\ NoDup (keys d) /\ positive d.
+Proof.
+  intros H Hv Hnd Hreg Hs. destruct (obtain_matrix c g sched Hv Hnd Hreg Hs) as (d & Ho & Hrest).
+  exists d. split; [|exact Hrest]. rewrite (history_stateless _ _ _ _ _ H), Ho. reflexivity.
+Qed.
+
 (* ---- the excluded cases are real: concrete counterexamples on the faithful model *)
 Definition mk (lo hi : Z) (ds : option Z) : rec :=
   {| r_lo := lo; r_hi := hi; r_ds := ds; r_r1 := true; r_qcfail := false; r_dup := false; r_mp := 0; r_mq := 60;
